@@ -3,7 +3,7 @@ CONSTANTS
   Configs <- CfgsMix
   Heads <- HeadsOps
   Levels <- LevelsA
-  Calls <- CallsA
+  Calls <- CallsB
   TextBytes = {2, 97}
   MaxText = 1
   Ops = {"set", "log"}
